@@ -495,6 +495,30 @@ pub proof fn lemma_norm_preserved(r: M3, v: V3)
     lemma_mid(r, v);
     assert(mvec(rt, w) == v);
 }
+/// wrist flip: Rz(q4 + pi) Ry(-q5) Rz(q6 - pi) == Rz(q4) Ry(q5) Rz(q6)   (sin and cos of q4, q6 negated, sin of q5 negated)
+pub proof fn lemma_r36_flip(s4: real, c4: real, s5: real, c5: real, s6: real, c6: real)
+    ensures r36c(-s4, -c4, -s5, c5, -s6, -c6) == r36c(s4, c4, s5, c5, s6, c6)
+{
+    let l = r36c(-s4, -c4, -s5, c5, -s6, -c6); let r = r36c(s4, c4, s5, c5, s6, c6);
+    assert((-c4) * c5 * (-c6) - (-s4) * (-s6) == c4 * c5 * c6 - s4 * s6) by(nonlinear_arith);
+    assert(-(-c4) * c5 * (-s6) - (-s4) * (-c6) == -c4 * c5 * s6 - s4 * c6) by(nonlinear_arith);
+    assert((-c4) * (-s5) == c4 * s5) by(nonlinear_arith);
+    assert((-s4) * c5 * (-c6) + (-c4) * (-s6) == s4 * c5 * c6 + c4 * s6) by(nonlinear_arith);
+    assert(-(-s4) * c5 * (-s6) + (-c4) * (-c6) == -s4 * c5 * s6 + c4 * c6) by(nonlinear_arith);
+    assert((-s4) * (-s5) == s4 * s5) by(nonlinear_arith);
+    assert(-(-s5) * (-c6) == -s5 * c6) by(nonlinear_arith);
+    assert((-s5) * (-s6) == s5 * s6) by(nonlinear_arith);
+    assert(l.a == r.a && l.b == r.b && l.c == r.c);
+}
+/// the tool axis (third column of Rz(q4) Ry(q5) Rz(q6)) does not depend on q6 and is kept by the flip (q4 + pi, -q5)
+pub proof fn lemma_r36_axis_flip(s4: real, c4: real, s5: real, c5: real, s6: real, c6: real, t6: real, d6: real)
+    ensures mvec(r36c(-s4, -c4, -s5, c5, t6, d6), v3(0real, 0real, 1real)) == mvec(r36c(s4, c4, s5, c5, s6, c6), v3(0real, 0real, 1real))
+{
+    lemma_vdot_unit(r36c(-s4, -c4, -s5, c5, t6, d6).a); lemma_vdot_unit(r36c(-s4, -c4, -s5, c5, t6, d6).b); lemma_vdot_unit(r36c(-s4, -c4, -s5, c5, t6, d6).c);
+    lemma_vdot_unit(r36c(s4, c4, s5, c5, s6, c6).a); lemma_vdot_unit(r36c(s4, c4, s5, c5, s6, c6).b); lemma_vdot_unit(r36c(s4, c4, s5, c5, s6, c6).c);
+    assert((-c4) * (-s5) == c4 * s5) by(nonlinear_arith);
+    assert((-s4) * (-s5) == s4 * s5) by(nonlinear_arith);
+}
 /// an orthogonal matrix preserves inner products: (R u).(R v) == u.v
 pub proof fn lemma_dot_preserved(r: M3, u: V3, v: V3)
     requires proper(r)
